@@ -11,6 +11,7 @@ import VsgModel.Base.BlankLine
 import VsgModel.Base.Whitespace
 import VsgModel.Generated.Classes
 import VsgModel.Base.DispatchStruct
+import VsgModel.Base.Multi
 namespace Vsgm.Base
 open Vsgm
 
@@ -147,11 +148,19 @@ def actTwice (action : KV) (k : String) : Except PyErr Int := do
 /-- class indices of the layout tokens the line-structure fixes create -/
 def lineCls : LineStruct.Cls := { ws := Gen.wsCls, cr := Gen.crCls, blank := Gen.blankCls }
 
+/-- the class facts of the pinned tree for the multi-line structure family (`Multi.lean`) -/
+def multiEnv : Multi.MEnv :=
+  { isa := Gen.isa, kindOf := Wire.kindOfCls, c := lineCls,
+    afterCls := Gen.afterKeywordCls, todoCls := Gen.todoCls, risingCls := Gen.risingEdgeCls,
+    fallingCls := Gen.fallingEdgeCls, openParenCls := Gen.openParenCls, closeParenCls := Gen.closeParenCls,
+    ticCls := Gen.ticCls, eventCls := Gen.eventKeywordCls, andCls := Gen.andOperatorCls,
+    equalCls := Gen.relationalEqualCls, charLitCls := Gen.characterLiteralCls }
+
 /-- every owner served by an arm in front of the structure-family dispatcher -/
 def earlierOwners : List String :=
   alignOwners ++ indentOwners ++ blankBelowOwners ++ blankAboveOwners ++ excessAboveOwners ++ excessBelowOwners ++
     removeAboveOwners ++ ws200Owners ++ betweenPairsOwners ++ wsOwners ++ caseTokenOwners ++ caseFormalOwners ++
-    caseConsistentOwners ++ caseInterfaceOwners ++ LineStruct.allOwners
+    caseConsistentOwners ++ caseInterfaceOwners ++ LineStruct.allOwners ++ Multi.allOwners
 
 /-- the model of `owner._fix_violation` applied to the tokens of interest -/
 def fixByOwner (owner : String) (params action : KV) (old : List Tok) : Option (Except PyErr (List Tok)) :=
@@ -205,6 +214,7 @@ def fixByOwner (owner : String) (params action : KV) (old : List Tok) : Option (
   else if owner ∈ caseInterfaceOwners then
     some (Case.Consistent.fixV (needOptStr action "value") old)
   else if owner ∈ LineStruct.allOwners then LineStruct.fixByOwner lineCls owner params action old
+  else if owner ∈ Multi.allOwners then Multi.fixByOwner multiEnv owner params action old
   else fixStruct stdEnv owner params action old
 
 end Vsgm.Base
